@@ -4,6 +4,7 @@ import (
 	"fmt"
 	"go/token"
 	"go/types"
+	"os"
 
 	"golang.org/x/tools/go/ssa"
 )
@@ -605,6 +606,13 @@ func runC11(c *Ctx) {
 // el in which every iteration either saw el[i] != nil or left the function.
 func scanProvesNoNil(p *prover, el ssa.Value, at ssa.Instruction) (bool, string) {
 	fn := p.fn
+	ok0, how0 := scanEstablishesNoNil(p, el, at)
+	if os.Getenv("TABDBG") == "scan" {
+		fmt.Fprintf(os.Stderr, "scan %s: %v %s\n", fn.Name(), ok0, how0)
+	}
+	if ok0 {
+		return true, how0
+	}
 	for _, h := range fn.Blocks {
 		isLoop := false
 		for _, pr := range h.Preds {
@@ -687,6 +695,11 @@ func scanProvesNoNil(p *prover, el ssa.Value, at ssa.Instruction) (bool, string)
 		if containsNilPredicate(p.ix, f) {
 			return true, "reached only when " + FuncName(f) + " (true exactly when some entry is nil) said no"
 		}
+	}
+	if ok, how := scanEstablishesNoNil(p, el, at); ok {
+		return true, how
+	} else if how != "" {
+		return false, "no scan over the appended list guards this append (nil entries would be copied in): " + how
 	}
 	return false, "no scan loop over the appended list guards this append: nil entries would be copied in"
 }
